@@ -91,7 +91,7 @@ func (e *RecEvents) SendInvokeRuntimeDone(d interop.InvokeRuntimeDoneData) error
 func (e *RecEvents) SendExtensionInit(d interop.ExtensionInitData) error {
 	return e.add(PlatEv{Kind: "ExtensionInit", Ext: d})
 }
-func (e *RecEvents) SendReportSpan(interop.Span) error { return e.add(PlatEv{Kind: "ReportSpan"}) }
+func (e *RecEvents) SendReportSpan(interop.Span) error   { return e.add(PlatEv{Kind: "ReportSpan"}) }
 func (e *RecEvents) SendReport(interop.ReportData) error { return e.add(PlatEv{Kind: "Report"}) }
 func (e *RecEvents) SendEnd(interop.EndData) error       { return e.add(PlatEv{Kind: "End"}) }
 func (e *RecEvents) SendFault(interop.FaultData) error   { return e.add(PlatEv{Kind: "Fault"}) }
